@@ -192,16 +192,21 @@ package socket
 //@   ensures[reject] result.1 != nil ==> (a - b < 0 || b < 0) && result.0 == a
 
 //@ func (*rawProto).readMessage
-//@   property C12 C06
+//@   property C12 C06 C05
 //@   flags libframe
 //@   let rm = as(m, type(*message))
-//@   modifies rm.size, fields(rm.xferPipe), allelems(type(xfer.XferFilter)), bb.B, lockset, ghost.appendFailed, ghost.maxAlloc
+//@   modifies rm.size, fields(rm.xferPipe), allelems(type(xfer.XferFilter)), bb.B, lockset, ghost.appendFailed, ghost.maxAlloc, ghost.consumed
 //@   requires @C06 bb != nil
 //@   let lim = old(messageSizeLimit)
 //@   ensures[alloc-within-limit] @C06 ghost.maxAlloc <= old(ghost.maxAlloc) || ghost.maxAlloc <= 4 || ghost.maxAlloc <= lim
 //@   ensures[size-checked] @C06 result == nil ==> rm.size <= lim && len(bb.B) + 5 <= rm.size
 //@   requires[no-pending-refusal] !ghost.appendFailed
 //@   ensures[refusal-propagated] result == nil ==> !ghost.appendFailed
+// C05 frame synchronisation: a frame that is accepted took exactly as many bytes
+// from the connection as its size field announces (the field counts itself), so
+// the next read starts at the next frame's size field, whatever the chunking.
+//@   ensures[frame-sync-consumed-equals-declared-size] @C05 result == nil ==> ghost.consumed == old(ghost.consumed) + rm.size
+//@   ensures[payload-is-the-rest-of-the-frame] @C05 result == nil ==> len(bb.B) + 5 + len(rm.xferPipe.filters) - old(len(rm.xferPipe.filters)) == rm.size
 
 // ---- C07: the id a socket is known by --------------------------------------------
 // the user-assigned id if there is one, else the remote address (a value fixed
